@@ -165,7 +165,15 @@ type wval struct {
 }
 
 func mkval(i int) wval {
-	b := Pattern(40+i*13, byte(i))
+	// lengths are neither ascending nor descending in i (53, 40, 66, 79, ...): a replacing upload can be
+	// shorter or longer than what it replaces
+	n := 40 + i*13
+	if i == 0 {
+		n = 53
+	} else if i == 1 {
+		n = 40
+	}
+	b := Pattern(n, byte(i))
 	return wval{ID: i, Body: b, ETag: etagOf(b), Meta: fmt.Sprintf("m%d", i), CT: fmt.Sprintf("text/w%d", i)}
 }
 
@@ -514,6 +522,34 @@ func c05RunScenario(r *ck.Run, st *pxStore, scn c05Scn, bound int) {
 		r.Add("evaluations", 1)
 		r.Add("transitions", int64(len(x.Points)))
 		r.Distinct(fmt.Sprintf("%s|%s|%v", st.Cfg, scn.Name, x.Choices))
+		if st.Cfg.Versioning && !x.Deadlock && !x.Horizon && len(x.Panics) == 0 {
+			// quiescent audit of the version history: every version that is listed is one whole upload
+			// (its own body, length, ETag, metadata), whatever the interleaving was
+			mk := int32(1000)
+			lv, err := st.B.ListObjectVersions(st.ctx(), &s3.ListObjectVersionsInput{Bucket: sp(c05Bucket), Prefix: sp(scn.Key), MaxKeys: &mk, KeyMarker: sp(""), VersionIdMarker: sp(""), Delimiter: sp("")})
+			if err == nil {
+				for _, v := range lv.Versions {
+					if getS(v.Key) != scn.Key {
+						continue
+					}
+					vid := getS(v.VersionId)
+					out, gerr := st.B.GetObject(st.ctx(), &s3.GetObjectInput{Bucket: sp(c05Bucket), Key: sp(scn.Key), VersionId: &vid, Range: sp("")})
+					if gerr != nil {
+						continue
+					}
+					body, _ := io.ReadAll(out.Body)
+					out.Body.Close()
+					o := identify(vals, body, true, getS(out.ETag), out.Metadata["w"], getS(out.ContentType), getI(out.ContentLength))
+					if o.Body < 0 || o.ETag != o.Body || o.Meta != o.Body || o.CT != o.Body {
+						var trace []string
+						for i, p := range x.Points {
+							trace = append(trace, fmt.Sprintf("%d T%d %s", i, p.Thread, sched.Canon(strings.ReplaceAll(p.Label, st.Dir, ""))))
+						}
+						r.Violation(ck.JoinSig(storeClass(st.Cfg), "version-is-not-one-whole-upload", scn.Name), map[string]any{"config": st.Cfg.String(), "scenario": scn.Name, "version": vid, "observed": o.Raw, "choices": x.Choices, "schedule": trace})
+					}
+				}
+			}
+		}
 		nsteps := make([]int, len(scn.Threads)+4)
 		for _, p := range x.Points {
 			nsteps[p.Thread]++
@@ -745,7 +781,7 @@ func C05(r *ck.Run) {
 		bound, bound3 = 3, 2
 		cfgs = append(cfgs, pxCfg{NoTmp: true, Versioning: true}, pxCfg{Sidecar: true}, pxCfg{Sidecar: true, NoTmp: true})
 	}
-	r.Rule(fmt.Sprintf("every interleaving with <= %d preemptions of the filesystem steps of 2-3 logical threads operating on one key through real posix backends sharing one root; plus two writer PROCESSES (separate descriptor tables and counters) on one storage, the first paused before each of its file-system steps while an identical second process runs a whole upload (same key, different keys, keys in one new directory; both temp-file strategies); distinct = distinct schedule; an execution is non-trivial when at least one context switch happened", bound))
+	r.Rule(fmt.Sprintf("every interleaving with <= %d preemptions of the filesystem steps of 2-3 logical threads operating on one key through real posix backends sharing one root; plus two writer PROCESSES (separate descriptor tables and counters) on one storage, the first paused before each of its file-system steps while an identical second process runs a whole upload (same key, different keys, keys in one new directory; both temp-file strategies); with a versioning directory every listed version is audited after each execution; distinct = distinct schedule; an execution is non-trivial when at least one context switch happened", bound))
 	r.Assume("single syscalls are atomic; reads/writes on an unpublished or immutable inode are not scheduling points; directory reads are one step")
 	r.Extra("preemption_bound", bound)
 	r.Extra("preemption_bound_3_threads", bound3)
